@@ -14,6 +14,7 @@ mod c17;
 mod c18;
 mod c20;
 mod mocset;
+mod st;
 mod gen;
 mod util;
 
@@ -43,6 +44,9 @@ fn main() {
     "C17" => c17::run(&mut sink, &mut rng, thorough),
     "C18" => c18::run(&mut sink, &mut rng, thorough),
     "C20" => c20::run(&mut sink, &mut rng, thorough),
+    "C08" => st::c08(&mut sink, &mut rng, thorough),
+    "C09" => st::c09(&mut sink, &mut rng, thorough),
+    "C10" => st::c10(&mut sink, &mut rng, thorough),
     "C14" => mocset::histories(&mut sink, &mut rng, thorough, &dir.join("work")),
     "C16" => mocset::crash_points(&mut sink, &mut rng, thorough, &dir.join("work")),
     "C15" => mocset::queries(&mut sink, &mut rng, thorough, &dir.join("work")),
